@@ -97,48 +97,45 @@ theorem splitOn_tagPart (u t : Bytes) (hu : SP ∉ u) :
     refine ⟨splitOn SP (a :: r), ?_, join_splitOn SP _⟩
     simp [splitOn_append_sep SP u (a :: r) hu]
 
-/-- `uripost.DecodeURI` reads back `size uri [tag]` -/
-theorem decodeURI_render (n : Nat) (u t : Bytes) (hn : sizeOK n = true) (hu : SP ∉ u) :
-    decodeURI (natToDec n ++ SP :: (u ++ tagPart t)) = .ok ((n : Int), u, t) := by
-  obtain ⟨rest, hs, hj⟩ := splitOn_tagPart u t hu
+/-- `uripost.DecodeURI` reads back `size uri [tag]`, however the size is spelled (`+`, leading zeros) -/
+theorem decodeURI_render (sz : Bytes) (n : Nat) (u t : Bytes) (hs : SizeTok sz n) (hu : SP ∉ u) :
+    decodeURI (sz ++ SP :: (u ++ tagPart t)) = .ok ((n : Int), u, t) := by
+  obtain ⟨rest, hsp, hj⟩ := splitOn_tagPart u t hu
   unfold decodeURI
-  rw [splitOn_append_sep SP _ _ (natToDec_noSP n), hs]
-  simp only [sizeOK, decide_eq_true_eq] at hn
-  simp only [atoi_natToDec n hn, hj]
+  rw [splitOn_append_sep SP _ _ hs.noSP, hsp]
+  simp only [hs.val, hj]
 
 theorem content_uripost_req (u t b : Bytes) (l : ItemLay) :
-    content .uripost (.req u t b) l = natToDec b.length ++ SP :: (u ++ tagPart t) := by
+    content .uripost (.req u t b) l = sizeText l b.length ++ SP :: (u ++ tagPart t) := by
   simp [content, tagPart]
 
-theorem reqContent_props (n : Nat) (u t : Bytes) (hu : targetOK u = true) (ht : tagOK t = true) :
-    let c := natToDec n ++ SP :: (u ++ tagPart t)
+theorem reqContent_props (sz : Bytes) (n : Nat) (u t : Bytes) (hs : SizeTok sz n) (hu : targetOK u = true) (ht : tagOK t = true) :
+    let c := sz ++ SP :: (u ++ tagPart t)
     LF ∉ c ∧ spWidth c = 0 ∧ spWidthRev c.reverse = 0 ∧ ∃ x r, c = x :: r ∧ x ≠ LBR := by
   intro c
-  obtain ⟨x, r, hx, hdig⟩ := natToDec_head n
+  obtain ⟨x, r, hx, hx1, hx2, hx3⟩ := hs.head
   obtain ⟨c0, r0, hcr, hc1, hc2, hc3, huLF, huSP, hurev⟩ := targetOK_props hu
   obtain ⟨htLF, htrev⟩ := tagOK_props ht
-  have hp := isDigit_props hdig
-  refine ⟨?_, ?_, ?_, x, r ++ SP :: (u ++ tagPart t), by simp [c, hx], hp.2.2.1⟩
+  refine ⟨?_, ?_, ?_, x, r ++ SP :: (u ++ tagPart t), by simp [c, hx], hx3⟩
   · simp only [c, List.mem_append, List.mem_cons, not_or]
-    exact ⟨natToDec_noLF n, by decide, huLF, tagPart_noLF htLF⟩
+    exact ⟨hs.noLF, by decide, huLF, tagPart_noLF htLF⟩
   · simp only [c, hx, List.cons_append]
-    exact spWidth_ascii x _ hp.1 hp.2.1
+    exact spWidth_ascii x _ hx1 hx2
   · have h1 := rev_edge_tagPart u t hurev htrev
-    have : c.reverse = (u ++ tagPart t).reverse ++ SP :: (natToDec n).reverse := by simp [c]
+    have : c.reverse = (u ++ tagPart t).reverse ++ SP :: sz.reverse := by simp [c]
     rw [this]
     apply spWidthRev_append _ _ _ h1
     · intro y hy; simp at hy; subst hy; decide
     · rw [hcr]; simp
 
 /-- the block of one request: trimmed line, then exactly `body` from the rest -/
-theorem upBlock_req (u t b X : Bytes) (h : Hdrs) (hu : targetOK u = true) (ht : tagOK t = true)
-    (hn : sizeOK b.length = true) :
-    upBlock (natToDec b.length ++ SP :: (u ++ tagPart t)) (b ++ X) h =
+theorem upBlock_req (sz u t b X : Bytes) (h : Hdrs) (hs : SizeTok sz b.length) (hu : targetOK u = true) (ht : tagOK t = true) :
+    upBlock (sz ++ SP :: (u ++ tagPart t)) (b ++ X) h =
       ({ method := postBytes, url := u, body := b, tag := t, hdrs := h } :: (uripostPass true X h).1,
        (uripostPass true X h).2) := by
-  obtain ⟨_, _, _, x, r, hxr, hx⟩ := reqContent_props b.length u t hu ht
+  obtain ⟨_, _, _, x, r, hxr, hx⟩ := reqContent_props sz b.length u t hs hu ht
   obtain ⟨_, _, _, _, _, _, _, huSP, _⟩ := targetOK_props hu
-  have hd := decodeURI_render b.length u t hn huSP
+  have hd := decodeURI_render sz b.length u t hs huSP
   rw [hxr] at hd ⊢
   unfold upBlock
   simp only [hx, if_false, hd]
@@ -190,7 +187,7 @@ theorem trim_entry (it : Item) (l : ItemLay) (hit : itemOK .uripost it = true) (
     exact ⟨by decide, ⟨⟨padOK_noLF h1, hk⟩, padOK_noLF h2⟩, by decide, ⟨⟨padOK_noLF h3, hv⟩, padOK_noLF h4⟩, by decide⟩
   | req u t b =>
     simp only [itemOK, Bool.and_eq_true] at hit
-    obtain ⟨hLF, hf, hr, x, r, hxr, _⟩ := reqContent_props b.length u t hit.1.1.2 hit.1.2
+    obtain ⟨hLF, hf, hr, x, r, hxr, _⟩ := reqContent_props (sizeText l b.length) b.length u t (sizeText_tok l _ hit.2) hit.1.1.2 hit.1.2
     rw [content_uripost_req]
     exact key _ hLF (by rw [hxr]; simp) hf hr
   | frame t fr => simp [itemOK] at hit
@@ -215,7 +212,7 @@ theorem upBlock_item (it : Item) (l : ItemLay) (h : Hdrs) (X : Bytes)
     simp only [itemOK, Bool.and_eq_true] at hit
     rw [content_uripost_req]
     simp only [payload, if_true, upStep]
-    exact upBlock_req u t b X h hit.1.1.2 hit.1.2 hit.2
+    exact upBlock_req _ u t b X h (sizeText_tok l _ hit.2) hit.1.1.2 hit.1.2
   | frame t fr => simp [itemOK] at hit
 
 theorem expAmmo_uripost_cons (it : Item) (r : List Item) (h : Hdrs) (X : Bytes)
